@@ -34,6 +34,7 @@ const (
 	ModeTruncated     = "truncated"      // 200, body cut short, connection closed
 	ModeGarbage       = "garbage"        // 200, not JSON
 	ModeWrongType     = "wrong_type"     // 200, success, resultType string
+	ModeOKBadData     = "ok_bad_data"    // 200 whose JSON body says status=error, errorType=bad_data
 	ModeReset         = "reset"          // connection closed without a response
 	ModeRefused       = "refused"        // dial level (never reaches the handler)
 	ModeDialBlackHole = "dial_blackhole" // dial level
@@ -235,6 +236,9 @@ func (srv *Server) ServeHTTP(w http.ResponseWriter, r *http.Request) {
 	case ModeExecution:
 		srv.finish(req, f.Mode, 0)
 		writeJSONErr(w, 422, "execution", "injected execution error")
+	case ModeOKBadData:
+		srv.finish(req, f.Mode, 0)
+		writeJSONErr(w, 200, "bad_data", "injected bad_data in a 200 body")
 	case ModeNotFound:
 		srv.finish(req, f.Mode, 0)
 		w.Header().Set("Content-Type", "text/plain")
